@@ -192,6 +192,14 @@ func (i *interpreter) ensureInit(pkg *ssa.Package, caller *frame) {
 	if ok {
 		i.pkgInit[pkg] = 2
 	}
+	// registries filled by the init functions of other packages
+	if pkg.Pkg.Path() == "crypto" {
+		for _, p := range []string{"crypto/sha256", "crypto/sha512", "crypto/sha1", "crypto/md5"} {
+			if hp := i.prog.ImportedPackage(p); hp != nil {
+				i.ensureInit(hp, caller)
+			}
+		}
+	}
 }
 
 func panicString(r interface{}) string {
